@@ -84,7 +84,7 @@ Definition pclass (c : case) : N :=
       if (0 <=? s) && (s <=? 7) then if o =? spec_size s then 0%N else 5%N else 0%N
   | Buf s m o =>
       if (0 <=? s) && (s <=? 6) then if o =? spec_size s then 0%N else 6%N
-      else if (s =? 7) && (1024 <=? m) then if o =? 1024 * (m / 1024) then 0%N else 6%N
+      else if (s =? 7) && (0 <=? m) then if o =? 1024 * (m / 1024) then 0%N else 6%N  (* whole multiples of 1024 bounded by the maximum message size: 0 when it is below 1024 *)
       else 0%N
   | DecSweep lo n o => if dec_sweep_spec lo n =? o then 0%N else 1%N
   | EncSweep s m lo n o => if enc_sweep_spec s m lo n =? o then 0%N else 3%N
